@@ -41,6 +41,15 @@ fn exception_base(module: &str) -> BTreeMap<OwnedTerm, OwnedTerm> {
     map
 }
 
+/// Module names are stored without the `Elixir.` prefix; `to_term` adds it and `from_term`
+/// removes it. The constructors accept either spelling.
+fn without_elixir_prefix(module: String) -> String {
+    match module.strip_prefix("Elixir.") {
+        Some(rest) => rest.to_string(),
+        None => module,
+    }
+}
+
 /// Elixir ArgumentError exception.
 ///
 /// Raised when a function receives an argument with an unexpected value or type.
@@ -271,6 +280,7 @@ impl From<MatchError> for OwnedTerm {
 /// Raised when a function is called but does not exist.
 #[derive(Debug, Clone, PartialEq, Eq)]
 pub struct UndefinedFunctionError {
+    /// Module name without the `Elixir.` prefix.
     pub module: String,
     pub function: String,
     pub arity: u8,
@@ -282,7 +292,7 @@ impl UndefinedFunctionError {
     #[must_use]
     pub fn new(module: impl Into<String>, function: impl Into<String>, arity: u8) -> Self {
         Self {
-            module: module.into(),
+            module: without_elixir_prefix(module.into()),
             function: function.into(),
             arity,
             reason: None,
@@ -298,7 +308,7 @@ impl UndefinedFunctionError {
         reason: impl Into<String>,
     ) -> Self {
         Self {
-            module: module.into(),
+            module: without_elixir_prefix(module.into()),
             function: function.into(),
             arity,
             reason: Some(reason.into()),
@@ -343,11 +353,7 @@ impl ElixirExceptionExt for UndefinedFunctionError {
     fn to_term(&self) -> OwnedTerm {
         let mut map = exception_base(Self::module_name());
 
-        let module_atom = if self.module.starts_with("Elixir.") {
-            self.module.clone()
-        } else {
-            format!("Elixir.{}", self.module)
-        };
+        let module_atom = format!("Elixir.{}", self.module);
 
         map.insert(
             OwnedTerm::Atom(Atom::new("module")),
@@ -530,6 +536,7 @@ impl From<BadFunctionError> for OwnedTerm {
 /// Raised when no function clause matches the given arguments.
 #[derive(Debug, Clone, PartialEq, Eq)]
 pub struct FunctionClauseError {
+    /// Module name without the `Elixir.` prefix.
     pub module: Option<String>,
     pub function: Option<String>,
     pub arity: Option<u8>,
@@ -546,7 +553,7 @@ impl FunctionClauseError {
         args: OwnedTerm,
     ) -> Self {
         Self {
-            module: Some(module.into()),
+            module: Some(without_elixir_prefix(module.into())),
             function: Some(function.into()),
             arity: Some(arity),
             args: Some(args),
@@ -607,11 +614,7 @@ impl ElixirExceptionExt for FunctionClauseError {
         let mut map = exception_base(Self::module_name());
 
         if let Some(ref module) = self.module {
-            let module_atom = if module.starts_with("Elixir.") {
-                module.clone()
-            } else {
-                format!("Elixir.{module}")
-            };
+            let module_atom = format!("Elixir.{module}");
             map.insert(
                 OwnedTerm::Atom(Atom::new("module")),
                 OwnedTerm::Atom(Atom::new(&module_atom)),
